@@ -3,6 +3,8 @@ package props
 import (
 	"errors"
 	"fmt"
+	"io"
+	"os"
 	"runtime"
 	"sort"
 	"strings"
@@ -44,6 +46,9 @@ func c14cases(env *core.Env) []c14case {
 			if c02matrix[i].Subject == "mem" {
 				cs = append(cs, c14case{shape, "c02", i})
 			}
+		}
+		for i := range c14directed {
+			cs = append(cs, c14case{shape, "directed", i})
 		}
 		for i := 0; i < env.Pick(200, 20000); i++ {
 			cs = append(cs, c14case{shape, "random", i})
@@ -130,8 +135,17 @@ func newC14World(shape string, failAt int) (*c14world, error) {
 	return w, nil
 }
 
+// c14directed: handle-level metadata and positional calls the two matrices do not contain
+var c14directed = [][]fsx.Step{
+	{{K: "WriteFullFile", P: "f", Data: "0123456789", Perm: 0o644}, {K: "Open", P: "f", Flag: os.O_RDWR}, {K: "H.Chmod", Perm: 0o600}, {K: "H.Chtimes", MTime: 1_500_000_000}, {K: "H.WriteAt", Data: "xy", Off: 3}, {K: "H.Sync"}, {K: "H.Chmod", Perm: 0o640}, {K: "H.Truncate", Off: 4}, {K: "H.Close"}},
+	{{K: "Mkdir", P: "d", Perm: 0o755}, {K: "WriteFullFile", P: "d/x", Data: "x", Perm: 0o644}, {K: "Open", P: "d", Flag: os.O_RDONLY}, {K: "H.Chmod", Perm: 0o700}, {K: "H.Chtimes", MTime: 1_500_000_000}, {K: "H.ReadDir", N: -1}, {K: "H.Stat"}, {K: "H.Close"}},
+	{{K: "Open", P: "n", Flag: os.O_RDWR | os.O_CREATE | os.O_EXCL, Perm: 0o600}, {K: "H.Write", Data: "abc"}, {K: "H.Chmod", Perm: uint32(os.ModeSticky) | 0o644}, {K: "H.Seek", Off: 0, Whence: io.SeekStart}, {K: "H.Read", N: 8}, {K: "H.Stat"}, {K: "H.Close"}, {K: "Chmod", P: "n", Perm: 0o600}, {K: "Chtimes", P: "n", MTime: 1_400_000_000}},
+}
+
 func c14history(env *core.Env, cs c14case) []fsx.Step {
 	switch cs.Src {
+	case "directed":
+		return c14directed[cs.Index]
 	case "c01":
 		return c01matrix[cs.Index].Hist
 	case "c02":
@@ -148,7 +162,15 @@ func c14history(env *core.Env, cs c14case) []fsx.Step {
 		st := gen.Namespace(tree, true)
 		if gen.R.Intn(5) == 0 {
 			slot := gen.R.Intn(2)
-			switch gen.R.Intn(5) {
+			switch gen.R.Intn(9) {
+			case 5:
+				st = fsx.Step{K: "H.Chmod", Slot: slot, Perm: fsx.ChmodModes[gen.R.Intn(len(fsx.ChmodModes))]}
+			case 6:
+				st = fsx.Step{K: "H.Chtimes", Slot: slot, MTime: 1_300_000_000 + int64(gen.R.Intn(1000))}
+			case 7:
+				st = fsx.Step{K: "H.WriteAt", Slot: slot, Data: gen.Content(), Off: int64(gen.R.Intn(8))}
+			case 8:
+				st = fsx.Step{K: "H.Sync", Slot: slot}
 			case 0:
 				st = fsx.Step{K: "Open", P: gen.Path(tree), Flag: fsx.AllFlags()[gen.R.Intn(48)], Perm: 0o644, Slot: slot}
 			case 1:
@@ -169,21 +191,27 @@ func c14history(env *core.Env, cs c14case) []fsx.Step {
 }
 
 // c14exec runs the history; returns per-step results, or hung=true with a goroutine dump.
-func c14exec(w *c14world, steps []fsx.Step) (results []fsx.Result, hung bool, dump string) {
+func c14exec(w *c14world, steps []fsx.Step, keep ...*fsx.Handles) (results []fsx.Result, hung bool, dump string) {
 	done := make(chan struct{})
-	var hs fsx.Handles
+	var own fsx.Handles
+	hs := &own
+	if len(keep) > 0 {
+		hs = keep[0] // the caller goes on using the handles: they are not closed here
+	}
 	go func() {
 		defer close(done)
 		for i, st := range steps {
 			w.hook.mu.Lock()
 			w.hook.step = i
 			w.hook.mu.Unlock()
-			results = append(results, fsx.Exec(w.fs, st, &hs, nil))
+			results = append(results, fsx.Exec(w.fs, st, hs, nil))
 		}
 		w.hook.mu.Lock()
 		w.hook.step = len(steps)
 		w.hook.mu.Unlock()
-		hs.CloseAll()
+		if len(keep) == 0 {
+			hs.CloseAll()
+		}
 	}()
 	select {
 	case <-done:
@@ -194,6 +222,9 @@ func c14exec(w *c14world, steps []fsx.Step) (results []fsx.Result, hung bool, du
 		return nil, true, string(buf[:n])
 	}
 }
+
+// c14idempotent: operations whose repetition after a failed first attempt must converge to the state one success gives
+var c14idempotent = map[string]bool{"Chmod": true, "Chtimes": true, "H.Chmod": true, "H.Chtimes": true, "H.Truncate": true, "Mkdir": true, "MkdirAll": true, "Remove": true, "RemoveAll": true, "WriteFullFile": true}
 
 func c14view(fsys hackpadfs.FS) string {
 	snap, prob := fsx.Snapshot(fsys, nil)
@@ -258,7 +289,7 @@ func c14run(env *core.Env, idx int) core.CaseResult {
 			op = fsx.Step{K: "CloseAll"}
 		}
 		res.Seen("op_site", cs.Shape+"|"+op.K+"|"+w.hook.site)
-		if fsx.Mutates(op) || strings.HasPrefix(op.K, "H.W") || op.K == "H.Truncate" {
+		if fsx.Mutates(op) || strings.HasPrefix(op.K, "H.W") || op.K == "H.Truncate" || op.K == "H.Chmod" || op.K == "H.Chtimes" {
 			res.NTKeys = append(res.NTKeys, core.Hash([]any{cs, k}))
 		}
 		panicked := false
@@ -316,8 +347,58 @@ func c14run(env *core.Env, idx int) core.CaseResult {
 			}
 			res.Violate(fmt.Sprintf("C14|%s|%s|%s|reported-success", cs.Shape, op.K, w.hook.site), fmt.Sprintf("[%s] %s returned success although the store failed a %s call (store call #%d) it made", cs.Shape, op, w.hook.site, k), wit)
 		}
+		// a retry of an idempotent operation whose first attempt failed: if the retry reports success, the work must be there
+		if at < len(results) && at < len(steps) && !results[at].OK() && results[at].Panic == "" && c14idempotent[op.K] {
+			cw, err1 := newC14World(cs.Shape, -1)
+			fw, err2 := newC14World(cs.Shape, k)
+			if err1 == nil && err2 == nil {
+				var ch, fh fsx.Handles
+				_, hung1, _ := c14exec(cw, steps[:at+1], &ch)
+				_, hung2, dump2 := c14exec(fw, steps[:at+1], &fh)
+				if hung2 && !hung1 {
+					if strings.Contains(dump2, "sync.(*Mutex).Lock") || strings.Contains(dump2, "semacquire") {
+						res.Violate(fmt.Sprintf("C14|%s|%s|hang", cs.Shape, w.hook.site), fmt.Sprintf("after a %s failure (store call #%d) the history did not finish; goroutine dump shows an operation parked on a lock", w.hook.site, k), wit)
+					} else {
+						res.Inconclusive = "history did not finish, no blocked-state witness"
+					}
+					return res
+				}
+				if !hung1 && !hung2 {
+					fw.hook.mu.Lock()
+					fw.hook.failAt = -1
+					fw.hook.mu.Unlock()
+					var rr fsx.Result
+					var cv, fv string
+					p := core.Recover(func() {
+						rr = fsx.Exec(fw.fs, op, &fh, nil)
+						ch.CloseAll()
+						fh.CloseAll()
+						cv, fv = c14view(cw.fs), c14view(fw.fs)
+					})
+					res.Count("retries_after_failure", 1)
+					switch {
+					case p != "" || rr.Panic != "":
+						res.Violate(fmt.Sprintf("C14|%s|%s|%s|retry-panic", cs.Shape, op.K, w.hook.site), fmt.Sprintf("[%s] retrying %s after its first attempt failed (%s failure at store call #%d) panicked: %s%s", cs.Shape, op, w.hook.site, k, p, rr.Panic), wit)
+					case rr.OK() && !rr.Skip && cv != fv:
+						res.Violate(fmt.Sprintf("C14|%s|%s|%s|retry-reported-success", cs.Shape, op.K, w.hook.site), fmt.Sprintf("[%s] %s failed when the store failed a %s call (#%d); the same call repeated without any failure returned nil, but the tree is not what one successful %s gives:\nafter the retry\n%s\nfault-free\n%s", cs.Shape, op, w.hook.site, k, op.K, fv, cv), wit)
+					case rr.OK():
+						res.Count("retries_that_did_the_work", 1)
+					}
+				}
+			}
+		}
 		// the faulted FS's view must equal a fresh FS over the same store
-		fresh, ferr := w.fresh()
+		var fresh hackpadfs.FS
+		var ferr error
+		if hung, confirmed := withWatchdog(func() { fresh, ferr = w.fresh() }); hung {
+			// (creating a file system opens a transaction: a lock the failed operation never released parks it forever)
+			if confirmed {
+				res.Violate(fmt.Sprintf("C14|%s|%s|%s|store-left-locked", cs.Shape, op.K, w.hook.site), fmt.Sprintf("[%s] after %s failed (a %s failure at store call #%d) a new file system over the same store cannot be created: the goroutine dump shows it parked on a lock", cs.Shape, op, w.hook.site, k), wit)
+			} else {
+				res.Inconclusive = "creating a fresh file system over the store did not finish, no blocked-state witness"
+			}
+			return res
+		}
 		if ferr != nil {
 			res.Violate(fmt.Sprintf("C14|%s|%s|%s|store-unusable", cs.Shape, op.K, w.hook.site), "a fresh keyvalue.FS over the store cannot be created: "+ferr.Error(), wit)
 			continue
